@@ -21,8 +21,12 @@ claimed = {
          "harness starts at the typed v1 structs (no YAML/JSON-schema); ideal signature scheme; fixed clock and serial"),
  "C07": ("5/C07", "Each structured extension's Builder and constructor are executed with symbolic content (flags, name bytes, octets, path length, OID arcs, qualifier members, key-id bytes) and the emitted value is compared byte for byte with a reference DER encoding written from RFC 5280/6960 (X.690 helpers independent of encoding/asn1).",
          "content strings of 2 bytes, short lists; hashed key identifiers are part of the C01 harness; the pathLen=0 defect is a recorded known finding"),
+ "C15": ("5/C15", "Fault enumeration executed symbolically through the real code: every write of an interrupted run on a three-tier hierarchy fails with each outcome class; error reporting, recovery by the next run (certificates, keys, chains, DNs) and the final no-op are asserted; mtimes are solver variables.",
+         "in-memory file system double; sampled tear offsets; strictly increasing mtimes"),
  "C16": ("5/C16", "The admission encoder (raw TLV assembly plus emulated reflection in partialMarshallStruct) is executed level by level for every subset of optional members and every GeneralName kind, and through the v1 configuration layer, against a reference AdmissionSyntax encoder written from Common PKI v2.0.",
          "compositional coverage of the tree, 2-byte ASCII strings"),
+ "C12": ("5/C12", "History quantifier discharged by induction: one default-flags run from an arbitrary directory state (symbolic artifact/hash/timestamp facts plus abstract fresh/chained facts under stated environment assumptions) must re-establish the converged state, and the following run must plan nothing.",
+         "assumptions A1-A3 about the environment; BulkUpdate effect summary; needsUpdate summarised"),
  "C13": ("5/C13", "Self-composition on CertificateContent.HashSum: two symbolic configurations that differ only in alias / profile name / run-relative instants must hash equal, and each of 24 single edits that change the generated certificate must change the hash; SHA-1 is an uninterpreted collision-free function of the JSON text produced by the json.Marshal model. The stored hash line round trip runs through the real export/import code.",
          "JSON model (cross-checked on concrete calls); two recorded known findings (relative validity edits, extension kinds with identical field layout)"),
  "C14": ("5/C14", "One regeneration step through the real GenerateArtifacts for an entity holding a key of any drawn type, a request without key, or nothing; key identity, SPKI, number of key generations and the verification of a child issued afterwards are asserted. Any number of regenerations follows by induction over the stored artifact.",
